@@ -43,6 +43,11 @@ def length(ip, v):
     if isinstance(v, Sym) and v.ty in ('bytes', 'str'):
         if v.ty == 'bytes':
             return ops.bytes_len(v)
+        if not z3.is_seq(v.t):
+            hk = ip.hooks.get('str.len')
+            if hk is None:
+                raise Unsupported('len() of an opaque string')
+            return hk(ip, v)
         return ops.mk(z3.Length(v.t), 'int')
     if isinstance(v, PyList):
         return len(v.items)
@@ -350,6 +355,13 @@ def b_all(ip, it):
 
 
 def b_any(ip, it):
+    if isinstance(it, SymSeq):
+        j = z3.Int('j!any')
+        if it.elem.ty == 'custom' and it.elem is tri_kind():
+            return ops.sbool(z3.Exists([j], z3.And(j >= 0, j < it.n, z3.Select(it.arr, j) == 1)))
+        if it.elem.ty == 'custom' and getattr(it.elem, 'truthy', None) is not None:
+            return ops.sbool(z3.Exists([j], z3.And(j >= 0, j < it.n, it.elem.truthy(z3.Select(it.arr, j)))))
+        raise Unsupported('any() over a symbolic list of %r' % (it.elem,))
     r = False
     for x in ip.iter_concrete(it):
         r = ops.or_(r, ip.truth(x))
@@ -1362,6 +1374,23 @@ def m_bytes_join(ip, sep, it):
             if 'bytelen' in it.meas:
                 ip.ctx.assume(ops.blen(it.meas['concat']) == it.meas['bytelen'])
             return Sym(it.meas['concat'], 'bytes')
+        jk = getattr(it.elem, 'join', None)
+        if isinstance(sep, bytes) and sep == b'' and jk is not None:
+            # a list whose element kind brings its own join specification (e.g. slots holding None or bytes):
+            # TypeError when an element is not bytes, else the concatenation in list order (prefix function, unfolded at the end)
+            used(ip, "b''.join(list): TypeError for a non-bytes element, else the concatenation in list order (prefix function unfolded at the last element)")
+            fn, is_bytes, as_bytes = jk
+            j = z3.Int('j!join')
+            if not ip.ctx.branch(ops.sbool(z3.ForAll([j], z3.Implies(z3.And(j >= 0, j < it.n), is_bytes(z3.Select(it.arr, j)))))):
+                ip.ctx.raise_exc('TypeError', 'sequence item: expected a bytes-like object')
+            t = fn(it.arr, it.n)
+            ip.ctx.assume(fn(it.arr, z3.IntVal(0)) == z3.Empty(BytesSort))
+            ip.ctx.assume(z3.Implies(it.n >= 1, t == z3.Concat(fn(it.arr, it.n - 1), as_bytes(z3.Select(it.arr, it.n - 1)))))
+            ip.ctx.assume(z3.Implies(it.n >= 2, fn(it.arr, it.n - 1) == z3.Concat(fn(it.arr, it.n - 2), as_bytes(z3.Select(it.arr, it.n - 2)))))
+            n = ip.ctx.fresh('join_len', IntSort)
+            ip.ctx.assume(n >= 0)
+            ops.set_len_term(t, n)
+            return Sym(t, 'bytes')
         raise Unsupported("join over a symbolic list needs the 'concat' measure")
     items = ip.iter_concrete(it)
     if isinstance(sep, bytes) and len(sep) == 0:
